@@ -21,6 +21,7 @@ Require Import Fggs.Proofs.Einsum_project Fggs.Proofs.Einsum_reindex Fggs.Proofs
 Require Import Fggs.Model.Trop Fggs.Model.XVal Fggs.Proofs.Einsum_argmax Fggs.Proofs.Einsum_vit Fggs.Proofs.Einsum_examples Fggs.Proofs.Einsum_oracle Fggs.Proofs.Einsum_orig.
 Require Import Fggs.Proofs.Axis_typed Fggs.Proofs.Axis_total Fggs.Proofs.Einsum_subst.
 Require Import Fggs.Proofs.Einsum_typed_base Fggs.Proofs.Einsum_typed_prep Fggs.Proofs.Einsum_typed_loop Fggs.Proofs.Einsum_typed_cert.
+Require Import Fggs.Proofs.Einsum_empty.
 Require Import Fggs.Proofs.Einsum_typed_main Fggs.Proofs.Einsum_typed_vit Fggs.Proofs.Einsum_typed_ex Fggs.Proofs.Einsum_typed_inst Fggs.Model.EReal.
 Local Open Scope nat_scope.
 
@@ -525,3 +526,25 @@ Theorem C07_argmax_typed_example :
             (forall a b, Semiring.add bool_ops a b = if implb a b then b else a).
 Proof. exact viterbi_typed_ex. Qed.
 Print Assumptions C07_argmax_typed_example.
+
+(** * an operand with an EMPTY physical axis is all-default (Proofs/Einsum_empty.v) *)
+(** whatever the virtual shape (the empty axis may sit inside a sum-type axis [a + K(0) + b] of non-zero
+    extent): every cell of the oracle's brute-force denotation is the default.  Such an operand is the
+    semiring's zero tensor only if its default is the semiring's zero, so the zero-size exit of [einsum]
+    is right only after [default_to(zero)]. *)
+Theorem C07_empty_physical_is_all_default : forall (R : Type) (t : ptensor R) k idx,
+  In (k, 0) (paxes t) -> dspec t idx = default t.
+Proof. exact @dspec_empty_physical. Qed.
+Print Assumptions C07_empty_physical_is_all_default.
+
+Theorem C07_empty_physical_denote : forall (R : Type) (t : ptensor R) k idx,
+  wf R t -> length idx = length (vaxes t) -> In (k, 0) (paxes t) -> denote R t idx = default t.
+Proof. exact @denote_empty_physical. Qed.
+Print Assumptions C07_empty_physical_denote.
+
+(** a non-trivial instance: [1 + K(0) + 2] with default [true] denotes [true; true; true] *)
+Theorem C07_empty_physical_example :
+  let t := @mkPT bool (fun _ => false) [(1%positive, 0)] [Sum 1 (Phys 1%positive 0) 2] true in
+  shape bool t = [3] /\ map (fun i => dspec t [i]) [0; 1; 2] = [true; true; true].
+Proof. exact empty_in_sum_example. Qed.
+Print Assumptions C07_empty_physical_example.
